@@ -36,6 +36,7 @@ class FileContracts:
         self.prologue = []
         self.contracted = []      # [(qualname, [clauses], kind)]
         self.assumed = []         # external_body etc: [(qualname, what)]
+        self.skipped = []         # optional helper contracts whose function no longer exists
         self.lemmas = []          # proof fns in the epilogue that are obligations: [(name, tags)]
 
     # ---- locating -------------------------------------------------------------------------
@@ -58,8 +59,14 @@ class FileContracts:
         return '%s::%s%s' % (self.relpath, (within + '::') if within else '', f.name)
 
     # ---- operations -----------------------------------------------------------------------
-    def contract(self, name, within=None, nth=0, ret='r', requires=(), ensures=(), decreases=None, attrs=(), external_body=False, tags=(), note=''):
-        f = self.fn(name, within, nth)
+    def contract(self, name, within=None, nth=0, ret='r', requires=(), ensures=(), decreases=None, attrs=(), external_body=False, tags=(), note='', optional=False):
+        try:
+            f = self.fn(name, within, nth)
+        except LostAnchor:
+            if optional:
+                self.skipped.append('%s::%s%s' % (self.relpath, (within + '::') if within else '', name))
+                return None
+            raise
         q = self._qual(f, within)
         # line indentation of the fn keyword
         ls = self.text.rfind('\n', 0, f.kw) + 1
